@@ -213,19 +213,42 @@ theorem csi_inv (ms d : Nat) (recs : List CRec) (h : CSortedInput ms d recs) :
     h.ok h.sorted (by intro a ha; cases ha)
   simpa [csiBuilt] using this
 
-/-- `add_never_fails` for CSI -/
-theorem csi_add_never_fails (ms d : Nat) (recs : List CRec) (h : CSortedInput ms d recs) :
+/-- `add_never_fails` for CSI, for the geometries Go's 64-bit position arithmetic supports
+(`minShift + 3·depth ≤ 62`, the same range `csi.ReadFrom` accepts) -/
+theorem csi_add_never_fails (ms d : Nat) (_hgeom : ms + 3 * d ≤ 62) (recs : List CRec) (h : CSortedInput ms d recs) :
     ∀ x, x ∈ (Csi.addAll Coord.reg2bin (csiNew ms d) recs).2 → x = AddRes.ok :=
   (csi_inv ms d recs h).1
 
+/-- beyond that range the code is unusable rather than wrong: for `minShift + 3·depth ≥ 64` (`csi.New(14,17)`,
+`csi.New(40,10)`) `1 << (minShift+3·depth)` is 0 on a 64-bit `int`, no position is valid and EVERY `Add`
+returns the "outside indexable range" error, leaving the index unchanged -/
+theorem csi_add_rejects_all_beyond_int64 (ms d : Nat) (hgeom : ms + 3 * d ≥ 64) (i : CIndex)
+    (hms : i.minShift = ms) (hd : i.depth = d) (r : CRec) :
+    Csi.add Coord.reg2bin i r = (i, AddRes.errRange) := by
+  have hb : Csi.posBound i.minShift i.depth = -2 := by
+    unfold Csi.posBound
+    have : ¬ (i.minShift + 3 * i.depth < 64) := by rw [hms, hd]; omega
+    simp [this]
+  have hv : (Csi.validPos i.minShift i.depth r.start && Csi.validPos i.minShift i.depth r.stop) = false := by
+    unfold Csi.validPos
+    rw [hb]
+    by_cases h1 : -1 ≤ r.start
+    · have : ¬ r.start ≤ -2 := by omega
+      simp [this]
+    · simp [h1]
+  unfold Csi.add
+  simp [hv]
+
 /-- the bin law of C16 for CSI in the form needed here -/
-theorem csi_bin_law (ms d : Nat) (hd : d ≤ 10) (r : CRec) (hok : CRecOK ms d r) (hp : r.placed = true)
+theorem csi_bin_law (ms d : Nat) (hd : d ≤ 10) (hgeom : ms + 3 * d ≤ 62) (r : CRec) (hok : CRecOK ms d r)
+    (hp : r.placed = true)
     (beg stop : Int) (hb : 0 ≤ beg) (hq : beg < stop) (hs : stop ≤ (2 : Int) ^ (ms + 3 * d))
     (hov1 : r.start < stop) (hov2 : beg < r.stop) :
     Coord.reg2bin r.start r.stop ms d ∈ Coord.reg2bins beg stop ms d := by
   obtain ⟨h0, hlt⟩ := hok.pos hp
   have hv := hok.vstop
-  simp only [Csi.validPos, Bool.and_eq_true, decide_eq_true_eq] at hv
+  simp only [Csi.validPos, Csi.posBound_of_le (show ms + 3 * d ≤ 63 by omega), Bool.and_eq_true,
+    decide_eq_true_eq] at hv
   have e : ((2 ^ (ms + 3 * d) : Nat) : Int) = (2 : Int) ^ (ms + 3 * d) := by
     rw [Int.natCast_pow]; rfl
   have := Hts.Props.C16.csi_bin_in_bins r.start.toNat r.stop.toNat beg.toNat stop.toNat ms d hd
@@ -241,7 +264,8 @@ theorem csi_bin_law (ms d : Nat) (hd : d ≤ 10) (r : CRec) (hok : CRecOK ms d r
 every query `[beg, stop)` with `0 ≤ beg < stop ≤ 2^(minShift+3·depth)` and every placed record
 overlapping it, one chunk returned by `csi.Index.Chunks` encloses the record's chunk; also after
 `MergeChunks pre` for every `pre` with `EncLaw` -/
-theorem csi_chunks_complete (ms d : Nat) (hd : d ≤ 10) (recs : List CRec) (h : CSortedInput ms d recs)
+theorem csi_chunks_complete (ms d : Nat) (hd : d ≤ 10) (hgeom : ms + 3 * d ≤ 62) (recs : List CRec)
+    (h : CSortedInput ms d recs)
     (r : CRec) (hr : r ∈ recs) (hp : r.placed = true)
     (beg stop : Int) (hb : 0 ≤ beg) (hq : beg < stop) (hs : stop ≤ (2 : Int) ^ (ms + 3 * d))
     (hov1 : r.start < stop) (hov2 : beg < r.stop)
@@ -252,7 +276,7 @@ theorem csi_chunks_complete (ms d : Nat) (hd : d ≤ 10) (recs : List CRec) (h :
   obtain ⟨_, hms, hdp, inv⟩ := csi_inv ms d recs h
   have hmem : r ∈ (recs.filter (·.placed)).reverse := by
     rw [List.mem_reverse, List.mem_filter]; exact ⟨hr, hp⟩
-  have hbin := csi_bin_law ms d hd r (h.ok r hr) hp beg stop hb hq hs hov1 hov2
+  have hbin := csi_bin_law ms d hd hgeom r (h.ok r hr) hp beg stop hb hq hs hov1 hov2
   constructor
   · exact Csi.chunks_complete_cover Coord.reg2bins Local.adjacent Local.encLaw_adjacent _ _ _ inv.cover r hmem
       beg stop (by rw [hms, hdp]; exact hbin)
@@ -263,12 +287,13 @@ theorem csi_chunks_complete (ms d : Nat) (hd : d ≤ 10) (recs : List CRec) (h :
 
 /-- an empty answer (also the answer for an unknown reference) implies that no added placed record
 overlaps the query -/
-theorem csi_empty_means_no_overlap (ms d : Nat) (hd : d ≤ 10) (recs : List CRec) (h : CSortedInput ms d recs)
+theorem csi_empty_means_no_overlap (ms d : Nat) (hd : d ≤ 10) (hgeom : ms + 3 * d ≤ 62) (recs : List CRec)
+    (h : CSortedInput ms d recs)
     (rid beg stop : Int) (hb : 0 ≤ beg) (hq : beg < stop) (hs : stop ≤ (2 : Int) ^ (ms + 3 * d))
     (hans : Csi.chunks Coord.reg2bins Local.adjacent (csiBuilt ms d recs) rid beg stop = []) :
     ¬ ∃ r, r ∈ recs ∧ r.placed = true ∧ r.rid = rid ∧ r.start < stop ∧ beg < r.stop := by
   rintro ⟨r, hr, hp, hrid, hov1, hov2⟩
-  obtain ⟨⟨c, hc, _⟩, _⟩ := csi_chunks_complete ms d hd recs h r hr hp beg stop hb hq hs hov1 hov2 id encLaw_id
+  obtain ⟨⟨c, hc, _⟩, _⟩ := csi_chunks_complete ms d hd hgeom recs h r hr hp beg stop hb hq hs hov1 hov2 id encLaw_id
   rw [hrid, hans] at hc
   cases hc
 
@@ -384,7 +409,7 @@ def exCsi : List Csi.CRec :=
     ⟨0, 128, 290, ⟨524300, 600000⟩, true, false⟩, ⟨3, 1021, 1022, ⟨600000, 600001⟩, true, true⟩ ]
 example : Csi.CSortedInput 4 2 exCsi := by decide
 example : coveredBy (Csi.chunks Coord.reg2bins Local.adjacent (csiBuilt 4 2 exCsi) 0 2 3) ⟨2309, 524288⟩ :=
-  (csi_chunks_complete 4 2 (by decide) exCsi (by decide) ⟨0, 0, 17, ⟨2309, 524288⟩, true, true⟩ (by decide)
+  (csi_chunks_complete 4 2 (by decide) (by decide) exCsi (by decide) ⟨0, 0, 17, ⟨2309, 524288⟩, true, true⟩ (by decide)
     (by decide) 2 3 (by decide) (by decide) (by decide) (by decide) (by decide) id encLaw_id).1
 
 end Hts.Props.C04
